@@ -85,12 +85,13 @@ PathsAt(s, i) ==          \* patch paths at an addressed opt-in node with a dict
   {Append(a, "w"), Append(a, "new")}
   \cup {Append(a, nd.ent[j].k) : j \in 1..Len(nd.ent)}                                      \* value under k: replaces
   \cup {Append(Append(a, nd.ent[j].k), "q") : j \in {x \in 1..Len(nd.ent) : s.g[nd.ent[x].to].kind # "opt"}}  \* dict under a non-opt-in entry
+  \cup {Append(Append(a, nd.ent[j].k), "{}") : j \in 1..Len(nd.ent)}                      \* EMPTY dict under k: overrides nothing / replaces a non-opt-in entry
   \cup (IF i = 1 THEN {<<"zz", "q">>} ELSE {})                                             \* dict under a key that does not exist
 Cands(s) == IF s.g[1].kind # "opt" THEN {<<"w">>, <<"new">>}
             ELSE UNION {PathsAt(s, i) : i \in {x \in 1..Len(s.g) : Addr(Bare(s), x).ok /\ s.g[x].ds}}
 Compatible(p, q) == p # q /\ ~StrictPrefix(p, q) /\ ~StrictPrefix(q, p)
 Patches1(s) == {<<p>> : p \in Cands(s)}
-Patches2(s) == {<<p, q>> : p \in {<<"w">>}, q \in {x \in Cands(s) : Compatible(<<"w">>, x) /\ Len(x) >= 2}}
+Patches2(s) == {<<p, q>> : p \in {<<"w">>}, q \in {x \in Cands(s) : Compatible(<<"w">>, x) /\ Len(x) >= 2 /\ x[Len(x)] # "{}"}}
 SsOpt(s) == {i \in 1..Len(s.g) : s.g[i].kind = "opt" /\ s.g[i].ss}
 
 \* ---- C14: every shape, one plain load ----
@@ -113,6 +114,10 @@ Seq3Of(s, maxat) ==
   LET ps == {<<>>, <<<<"w">>>>} IN
   {Graph(s, "rp", TRUE, FALSE, FALSE, <<f, h, Ld(P)>>, FALSE) : f \in Fails(s, maxat), h \in Fails(s, maxat) \cup {Ld(<<<<"new">>>>)}, P \in ps}
 C15Seq3(S, maxat) == UNION {Seq3Of(s, maxat) : s \in {x \in S : HasOpt(x)}}
+\* ---- C14: a load that raises (every kind), then the plain round trip on the same thread ----
+FailsPlain(s, maxat) == {f \in Fails(s, maxat) : f.patch = <<>>} \cup {[patch |-> <<>>, fail |-> "noclass", at |-> 0, thr |-> 1]}
+C14Seq(S, maxat, mks) == UNION {{Graph(s, "rp", TRUE, mk, FALSE, <<f, Ld(<<>>)>>, FALSE) : f \in FailsPlain(s, maxat), mk \in mks}
+                                : s \in {x \in S : HasOpt(x)}}
 \* ---- C13: graphs without opt-in objects under both flags; opt-in graphs with remote=False and under the standard operations ----
 C13Graphs(Splain, Sopt, Sstd) == UNION {
   {Graph(s, "rp", rm, FALSE, FALSE, <<Ld(<<>>)>>, FALSE) : s \in Splain, rm \in BOOLEAN},
@@ -138,8 +143,9 @@ S_five(u)    == Shapes({5}, {"opt", "cont"}, 0, FALSE)              \* 5-node tr
 ScnSet(name) ==
   CASE name = "C13_quick"    -> UNION {Cls(3), Leaf, C13Graphs(S_plain3(0), UNION {S_noflag3(0), S_opt2(0)}, S_noflag3(0))}
     [] name = "C13_thorough" -> UNION {Cls(4), Leaf, C13Graphs(S_plain4(0), UNION {S_small(0), S_fourx(0)}, UNION {S_small(0), S_fourx(0)})}
-    [] name = "C14_quick"    -> C14Of(UNION {S_small(0), S_four(0), FalsyOf(S_tree3(0))}, BOOLEAN)
-    [] name = "C14_thorough" -> C14Of(UNION {S_three2(0), S_fourf(0), S_five(0), FalsyOf(UNION {S_noflag3(0), S_four(0)})}, BOOLEAN)
+    [] name = "C14_quick"    -> UNION {C14Of(UNION {S_small(0), S_four(0), FalsyOf(S_tree3(0))}, BOOLEAN), C14Seq(S_opt2(0), 2, BOOLEAN)}
+    [] name = "C14_thorough" -> UNION {C14Of(UNION {S_three2(0), S_fourf(0), S_five(0), FalsyOf(UNION {S_noflag3(0), S_four(0)})}, BOOLEAN),
+                                       C14Seq(UNION {S_noflag3(0), S_opt2(0)}, 4, BOOLEAN)}
     [] name = "C15_quick"    -> UNION {C15P(S_small(0), TRUE), C15P(S_four(0), FALSE), C15Seq(S_opt2(0), 2)}
     [] name = "C15_thorough" -> UNION {C15P(UNION {S_three2(0), S_fourx(0)}, TRUE), C15Seq(S_noflag3(0), 4), C15Seq(S_opt2(0), 3), C15Seq3(S_opt2(0), 2)}
     [] name = "tiny"         -> C14Of(S_opt2(0), {FALSE})
